@@ -120,4 +120,40 @@ StrictRel(s, env) ==
      \/ /\ b.out = a.out
         /\ [b.st EXCEPT !.flags.strict = FALSE] = a.st
 
+\* ---- the device table and the internal-register map (C32), one operator per public call ---------
+\* r is the call in the vocabulary of the harness: r.op, its arguments and the logged result r.res.
+\* Result: [st, bad]: the state after the call and the names of what the logged result contradicts.
+WP(p) == W(p[1], p[2])                     \* JSON pair [v, m] -> word
+DevOf(d) == [k |-> d.k, ie |-> B(d.ie), val |-> d.val, time |-> d.time, en |-> B(d.en),
+             lo |-> d.lo, hi |-> d.hi, vect |-> d.vect, prio |-> d.prio, slot |-> d.slot]
+SetPortsFor(s, ports, id) ==
+  [s EXCEPT !.ports = [a \in (DOMAIN @) \cup SeqSet(ports) |->
+                          IF a \in SeqSet(ports) THEN id ELSE @[a]]]
+
+DevOp(s, r) ==
+  LET ok(x) == [st |-> x, bad |-> {}] IN
+  CASE r.op = "mmap"   ->
+         LET can == r.a >= IO_START /\ r.a \notin DOMAIN s.ireg IN
+         [st |-> IF can THEN [s EXCEPT !.ireg = (r.a :> r.reg) @@ @] ELSE s,
+          bad |-> IF (r.res = "ok") = can THEN {} ELSE {"res"}]
+    [] r.op = "munmap" ->
+         [st |-> [s EXCEPT !.ireg = [a \in (DOMAIN @) \ {r.a} |-> @[a]]],
+          bad |-> IF (r.res = "ok") = (r.a \in DOMAIN s.ireg) THEN {} ELSE {"res"}]
+    [] r.op = "adddev" ->
+         LET can == \A a \in SeqSet(r.ports) : a >= IO_START /\ PortDev(s, a) = 0
+             id  == Len(s.devs)
+         IN [st |-> IF can THEN SetPortsFor([s EXCEPT !.devs = Append(@, DevOf(r.dev))], r.ports, id) ELSE s,
+             bad |-> IF (IF can THEN r.res = id ELSE r.res = -1) THEN {} ELSE {"res"}]
+    [] r.op = "rmem"   ->
+         LET x == ReadMem(s, r.a, [priv |-> B(r.ctx.priv), strict |-> B(r.ctx.strict), fx |-> B(r.ctx.fx), track |-> B(r.ctx.track)], EnvOf(r.env))
+         IN [st |-> x.st, bad |-> IF x.e = (IF r.res = "ok" THEN "none" ELSE r.res) /\ (x.e = "none" => x.w = WP(r.w)) THEN {} ELSE {"res"}]
+    [] r.op = "wmem"   ->
+         LET x == WriteMem(s, r.a, WP(r.w), [priv |-> B(r.ctx.priv), strict |-> B(r.ctx.strict), fx |-> B(r.ctx.fx), track |-> B(r.ctx.track)], EnvOf(r.env))
+         IN [st |-> x.st, bad |-> IF x.e = (IF r.res = "ok" THEN "none" ELSE r.res) THEN {} ELSE {"res"}]
+    [] r.op = "rmdev" ->
+         IF r.id + 1 > Len(s.devs) THEN ok(s)
+         ELSE ok([s EXCEPT !.devs[r.id + 1] = NullDev,
+                           !.ports = IF r.id \in {0, 1, 2} THEN @
+                                     ELSE [a \in { x \in DOMAIN @ : @[x] # r.id } |-> @[a]]])
+
 =============================================================================
